@@ -128,6 +128,7 @@ def base_pool():
 
 
 EXTRA = []      # findings an operation reports itself (drained by run_program)
+CAPPED = []     # operations that were replaced by a copy of their operand to keep the sizes small (drained by run_program)
 
 UNARY = {
     "neg": lambda q: -q, "dag": lambda q: q.dag(), "trans": lambda q: q.trans(), "conj": lambda q: q.conj(),
@@ -191,6 +192,7 @@ def apply_op(name, args, rng):
     if q.shape[0] > 9 and name in ("spre", "spost", "to_super", "liouvillian", "dissipator", "dissipator_chi", "liouvillian_chi", "dissipator_pair",
                                    "to_choi", "to_chi", "to_super_rt", "super_tensor", "mesolve_dm", "steadystate", "propagator", "ptrace", "permute",
                                    "tensor_swap_left", "tensor_swap_right", "tensor_swap_both", "tensor_swap_cross", "expand_operator", "contract"):
+        CAPPED.append(name)
         return q.copy()
     if name == "proj_col":
         return qutip.Qobj(q.full()[:, :1]).proj()
@@ -382,10 +384,12 @@ def apply_op(name, args, rng):
         return qutip.steadystate((q + q.dag()) * 0.5, [qutip.destroy(2)])
     if name == "tensor":
         if q.shape[0] * args[1].shape[0] > 100:
+            CAPPED.append(name)
             return q.copy()
         return qutip.tensor(q, args[1])
     if name == "sprepost":
         if q.shape[0] > 9 or args[1].shape[0] > 9:
+            CAPPED.append(name)
             return q.copy()
         return qutip.sprepost(q, args[1])
     if name == "commutator":
@@ -457,7 +461,9 @@ def run_program(prog, rules=None):
         store.append(res)
         labels.append(f"{op}({labels[i]},{labels[j]})" if op in BINARY else f"{op}({labels[i]})")
         nops += 1
-        if rules is not None and op in rules and res.isoper and a.isoper and b.isoper:
+        capped = bool(CAPPED)
+        del CAPPED[:]
+        if rules is not None and op in rules and res.isoper and a.isoper and b.isoper and not capped:
             for flag, idx in (("H", 0), ("U", 1)):
                 key = (op, flag)
                 if key in rules[op]:
